@@ -20,11 +20,11 @@ func checkC16(r *Run) {
 	r.Rule("R6", "first-class functions: the callee is obtained by evaluating the call's function expression on every call, recognised by a comma-ok assertion before the reflect path; the literal captures Parameters and Block unmodified", 2)
 	r.Rule("R7", "return always produces an exit object: the return evaluator wraps every value (also nil) when the statement is a return", 1)
 	userFunctionCallRule(r)
-	exitEndsBlockRule(r, "R3")
+	coreBlockRules(r, "", "R3")
 	exitEscapesRule(r, "R4")
 	loopReturnRule(r, "R5")
 	firstClassRule(r, "R6")
-	returnWrapRule(r, "R7")
+	coreReturnRule(r, "R7")
 }
 
 func userFunctionCallRule(r *Run) {
